@@ -3,6 +3,7 @@
 from __future__ import annotations
 
 import json
+import math
 import struct
 import warnings
 from fractions import Fraction
@@ -21,13 +22,17 @@ PID = 'C09'
 MODULES = ['GProofs.C09']
 KB = physical_constants['Boltzmann constant in eV/K'][0]
 BIG = 1.7976931348623157e308
-TEMPS = [1.0, 300.0, 1000.5]
+TEMPS = [1.0, 300.0, 1000.5, 300.0, 650.0, 2.5e4, 1.0e5]  # also k_B T above 1 eV
 
 
 def gen_case(rng):
     shape = [int(rng.integers(1, 7)) for _ in range(3)]
-    mode = rng.integers(4)
-    if mode == 0:
+    mode = rng.integers(5)
+    if mode == 4:
+        # a long history: one voxel holds almost all of 1e9..1e12 samples, a few voxels were visited a handful of times
+        d = rng.integers(0, 12, size=shape) * (rng.random(shape) < 0.5)
+        d[tuple(rng.integers(0, s) for s in shape)] = int(rng.integers(10**9, 10**12))
+    elif mode == 0:
         d = rng.integers(0, 3, size=shape)
     elif mode == 1:
         d = rng.integers(0, 1000, size=shape) * (rng.random(shape) < 0.4)
@@ -75,8 +80,13 @@ def check_case(out: Outcome, case, tag):
     if abs(p.sum() - 1) > 1e-10:
         out.fail('property', 'probabilities-sum-to-one', case, expected=1, observed=float(p.sum()))
     # value: -kT ln p (independent high-precision evaluation through the ratio of integers)
-    want_F = np.array([-kT * float(np.log(Fraction(int(x), S).numerator) - np.log(Fraction(int(x), S).denominator)) for x in d[vis]])
-    if not np.allclose(F[vis], want_F, rtol=1e-9, atol=1e-18):
+    def ln_ratio(x):
+        # ln(x / S) without cancellation: log1p of the exact complement when p > 1/2, difference of logs otherwise
+        q = Fraction(int(x), S)
+        return math.log1p(-float(1 - q)) if 2 * q > 1 else float(np.log(q.numerator) - np.log(q.denominator))
+    want_F = np.array([-kT * ln_ratio(x) for x in d[vis]])
+    # p itself is a rounded quotient (relative 1.1e-16), which moves ln p by that much in ABSOLUTE terms
+    if not np.allclose(F[vis], want_F, rtol=1e-9, atol=1e-18 + 4e-16 * kT):
         out.fail('property', 'free-energy-value', case, expected=want_F.tolist()[:6], observed=F[vis].tolist()[:6])
     # a denser voxel never has a higher free energy
     order = np.argsort(d[vis], kind='stable')
@@ -92,8 +102,9 @@ def check_case(out: Outcome, case, tag):
     if np.any(F[vis] < 0):
         out.fail('property', 'nonnegative', case, observed=float(F[vis].min()))
     # unvisited voxels: finite, prohibitively large
-    if np.any(~vis) and not np.all(F[~vis] == BIG):
-        out.fail('property', 'unvisited-large-finite', case, expected=BIG, observed=F[~vis].tolist()[:4])
+    # (finite was checked above; 'prohibitive' = at least the default graph threshold 1e20 and above every visited voxel)
+    if np.any(~vis) and not (np.all(F[~vis] >= 1e20) and np.all(F[~vis] > F[vis].max())):
+        out.fail('property', 'unvisited-large-finite', case, expected='>= 1e20 and above every visited voxel', observed=F[~vis].tolist()[:4])
     # graph nodes: visited voxels below the threshold, unvisited ones excluded
     G = free_energy_graph(fe, max_energy_threshold=thr, diagonal=False)
     nodes = set(G.nodes)
